@@ -1,2 +1,251 @@
-/- placeholder: the C15 driver is not built yet -/
-def main : IO Unit := IO.println "C15: driver not built yet"
+/-
+C15 driver.
+
+  drv-c15 zoo <level>      enumerate the type zoo of that level: `<enc> <TAB> <C++ spelling>` per type
+  drv-c15                  line protocol on stdin, `model <TAB> spec` per line:
+
+    ut t=<enc>                      structural unary traits of the type
+    bt a=<enc> b=<enc>              is_same / same_as
+    spell t=<enc>                   `<C++ spelling>` (both columns) or `illformed`
+    lim t=<base name>               numeric_limits of an integer type (modelled members only)
+    rn n=<int> d=<int>              ratio<n,d>::num/den and ::type
+    ra n1= d1= n2= d2=              ratio_add/subtract/multiply/divide and the six comparisons
+
+A result is a blank-separated list of `name=value`; type values are printed with `CType.enc`.
+-/
+import Tetl.Proto
+import Tetl.C15.Model
+import Tetl.C15.Spec
+namespace Tetl.C15.Driver
+open Tetl Tetl.Proto Tetl.C15 CType
+
+def b2s (b : Bool) : String := if b then "1" else "0"
+def items (l : List (String × String)) : String := " ".intercalate (l.map fun (k, v) => k ++ "=" ++ v)
+
+def exT : Except Err CType → String
+  | .ok t => t.enc
+  | .error _ => "ill-formed"
+
+def modelUnary (t : CType) : String :=
+  items [
+    ("is_void", b2s (M.isVoid t)), ("is_null_pointer", b2s (M.isNullPointer t)), ("is_integral", b2s (M.isIntegral t)),
+    ("is_floating_point", b2s (M.isFloatingPoint t)), ("is_array", b2s (M.isArray t)), ("is_enum", b2s (M.isEnum t)),
+    ("is_union", b2s (M.isUnion t)), ("is_class", b2s (M.isClass t)), ("is_function", b2s (M.isFunction t)),
+    ("is_pointer", b2s (M.isPointer t)), ("is_lvalue_reference", b2s (M.isLvalueReference t)),
+    ("is_rvalue_reference", b2s (M.isRvalueReference t)), ("is_member_object_pointer", b2s (M.isMemberObjectPointer t)),
+    ("is_member_function_pointer", b2s (M.isMemberFunctionPointer t)), ("is_fundamental", b2s (M.isFundamental t)),
+    ("is_arithmetic", b2s (M.isArithmetic t)), ("is_scalar", b2s (M.isScalar t)), ("is_object", b2s (M.isObject t)),
+    ("is_compound", b2s (M.isCompound t)), ("is_reference", b2s (M.isReference t)),
+    ("is_member_pointer", b2s (M.isMemberPointer t)), ("is_const", b2s (M.isConst t)), ("is_volatile", b2s (M.isVolatile t)),
+    ("is_signed", b2s (M.isSigned t)), ("is_unsigned", b2s (M.isUnsigned t)), ("is_bounded_array", b2s (M.isBoundedArray t)),
+    ("is_unbounded_array", b2s (M.isUnboundedArray t)), ("is_scoped_enum", b2s (M.isScopedEnum t)),
+    ("integral", b2s (M.integral t)), ("signed_integral", b2s (M.signedIntegral t)),
+    ("unsigned_integral", b2s (M.unsignedIntegral t)), ("floating_point", b2s (M.floatingPoint t)),
+    ("rank", toString (M.rank t)), ("extent0", toString (M.extent t 0)), ("extent1", toString (M.extent t 1)),
+    ("remove_const", (M.removeConst t).enc), ("remove_volatile", (M.removeVolatile t).enc), ("remove_cv", (M.removeCv t).enc),
+    ("add_const", (M.addConst t).enc), ("add_volatile", (M.addVolatile t).enc), ("add_cv", (M.addCv t).enc),
+    ("remove_reference", (M.removeReference t).enc), ("add_lvalue_reference", (M.addLvalueReference t).enc),
+    ("add_rvalue_reference", (M.addRvalueReference t).enc), ("remove_pointer", (M.removePointer t).enc),
+    ("add_pointer", (M.addPointer t).enc), ("remove_extent", (M.removeExtent t).enc),
+    ("remove_all_extents", (M.removeAllExtents t).enc), ("decay", (M.decay t).enc), ("remove_cvref", (M.removeCvref t).enc),
+    ("type_identity", (M.typeIdentity t).enc), ("make_signed", exT (M.makeSigned t)), ("make_unsigned", exT (M.makeUnsigned t)),
+    ("underlying_type", match M.underlyingType t with | some u => u.enc | none => "none")]
+
+def specUnary (t : CType) : String :=
+  items [
+    ("is_void", b2s (Spec.isVoid t)), ("is_null_pointer", b2s (Spec.isNullPointer t)), ("is_integral", b2s (Spec.isIntegral t)),
+    ("is_floating_point", b2s (Spec.isFloatingPoint t)), ("is_array", b2s (Spec.isArray t)), ("is_enum", b2s (Spec.isEnum t)),
+    ("is_union", b2s (Spec.isUnion t)), ("is_class", b2s (Spec.isClass t)), ("is_function", b2s (Spec.isFunction t)),
+    ("is_pointer", b2s (Spec.isPointer t)), ("is_lvalue_reference", b2s (Spec.isLvalueReference t)),
+    ("is_rvalue_reference", b2s (Spec.isRvalueReference t)), ("is_member_object_pointer", b2s (Spec.isMemberObjectPointer t)),
+    ("is_member_function_pointer", b2s (Spec.isMemberFunctionPointer t)), ("is_fundamental", b2s (Spec.isFundamental t)),
+    ("is_arithmetic", b2s (Spec.isArithmetic t)), ("is_scalar", b2s (Spec.isScalar t)), ("is_object", b2s (Spec.isObject t)),
+    ("is_compound", b2s (Spec.isCompound t)), ("is_reference", b2s (Spec.isReference t)),
+    ("is_member_pointer", b2s (Spec.isMemberPointer t)), ("is_const", b2s (Spec.isConst t)), ("is_volatile", b2s (Spec.isVolatile t)),
+    ("is_signed", b2s (Spec.isSigned t)), ("is_unsigned", b2s (Spec.isUnsigned t)), ("is_bounded_array", b2s (Spec.isBoundedArray t)),
+    ("is_unbounded_array", b2s (Spec.isUnboundedArray t)), ("is_scoped_enum", b2s (Spec.isScopedEnum t)),
+    ("integral", b2s (Spec.integral t)), ("signed_integral", b2s (Spec.signedIntegral t)),
+    ("unsigned_integral", b2s (Spec.unsignedIntegral t)), ("floating_point", b2s (Spec.floatingPoint t)),
+    ("rank", toString (Spec.rank t)), ("extent0", toString (Spec.extent t 0)), ("extent1", toString (Spec.extent t 1)),
+    ("remove_const", (Spec.removeConst t).enc), ("remove_volatile", (Spec.removeVolatile t).enc), ("remove_cv", (Spec.removeCv t).enc),
+    ("add_const", (Spec.addConst t).enc), ("add_volatile", (Spec.addVolatile t).enc), ("add_cv", (Spec.addCv t).enc),
+    ("remove_reference", (Spec.removeReference t).enc), ("add_lvalue_reference", (Spec.addLvalueReference t).enc),
+    ("add_rvalue_reference", (Spec.addRvalueReference t).enc), ("remove_pointer", (Spec.removePointer t).enc),
+    ("add_pointer", (Spec.addPointer t).enc), ("remove_extent", (Spec.removeExtent t).enc),
+    ("remove_all_extents", (Spec.removeAllExtents t).enc), ("decay", (Spec.decay t).enc), ("remove_cvref", (Spec.removeCvref t).enc),
+    ("type_identity", (Spec.typeIdentity t).enc), ("make_signed", exT (Spec.makeSigned t)), ("make_unsigned", exT (Spec.makeUnsigned t)),
+    ("underlying_type", match Spec.underlyingType t with
+      | some (some u) => u.enc
+      | some none => "*"            -- implementation-defined
+      | none => "none")]
+
+/-! ### the zoo -/
+
+def allCV : List CV := [⟨false, false⟩, ⟨true, false⟩, ⟨false, true⟩, ⟨true, true⟩]
+
+/-- level 0: every base type with every cv-qualification -/
+def leaves : List CType := Base.all.flatMap fun b => allCV.map fun q => base b q
+
+def fnAll : List (Args × CV × RefQ × Bool) :=
+  [Args.a0, .a1, .a2].flatMap fun a => allCV.flatMap fun q => [RefQ.none, .lref, .rref].flatMap fun r =>
+    [false, true].map fun ne => (a, q, r, ne)
+
+def fnFew : List (Args × CV × RefQ × Bool) :=
+  [(.a0, CV.none, .none, false), (.a1, CV.none, .none, true), (.a2, CV.none, .none, false), (.a0, ⟨true, false⟩, .none, false),
+   (.a1, ⟨false, true⟩, .lref, true), (.a0, CV.none, .rref, false), (.a1, ⟨true, true⟩, .rref, true), (.a2, CV.none, .lref, true)]
+
+/-- return types that get every function-type variant -/
+def fullFnRet (t : CType) : Bool :=
+  t == base .void CV.none || t == base .int CV.none || t == lref (base .cls ⟨true, false⟩)
+
+/-- every way to wrap `t` once (well-formed results only) -/
+def grow1 (t : CType) : List CType :=
+  let fns := (if fullFnRet t then fnAll else fnFew).map fun (a, q, r, ne) => fn t a q r ne
+  ((allCV.map fun q => ptr t q) ++ (allCV.map fun q => mptr t q) ++ [lref t, rref t, arr t 3, arr t 1, uarr t] ++ fns).filter wf
+
+def grow (ts : List CType) : List CType := ts.flatMap grow1
+
+def smallLeaves : List CType :=
+  [base .int CV.none, base .int ⟨true, false⟩, base .char ⟨false, true⟩, base .void CV.none, base .void ⟨true, false⟩,
+   base .cls CV.none, base .cls ⟨true, true⟩, base .enumS CV.none, base .enumU ⟨true, false⟩, base .double CV.none,
+   base .nullptr CV.none, base .ullong ⟨false, true⟩, base .bool CV.none, base .uni ⟨true, false⟩]
+
+def tinyLeaves : List CType := [base .int CV.none, base .cls ⟨true, false⟩, base .void CV.none, base .char ⟨false, true⟩]
+
+def zoo : Nat → List CType
+  | 0 => leaves
+  | 1 => grow (leaves ++ [lref (base .cls ⟨true, false⟩)]) |>.filter (· != lref (lref (base .cls ⟨true, false⟩)))
+  | 2 => grow (grow smallLeaves)
+  | 3 => grow (grow (grow tinyLeaves))
+  | _ => []
+
+/-! ### numeric_limits -/
+
+/-- (kind, is bool, bits, signed) of the integer types on x86-64 Linux -/
+def limitsOf : String → Option (IntKind × Bool × Nat × Bool)
+  | "bool" => some (.bool, true, 8, false)
+  | "char" => some (.char, false, 8, true)
+  | "schar" => some (.plain, false, 8, true)
+  | "uchar" => some (.plain, false, 8, false)
+  | "wchar" => some (.plain, false, 32, true)
+  | "char8" => some (.char8, false, 8, false)
+  | "char16" => some (.plain, false, 16, false)
+  | "char32" => some (.plain, false, 32, false)
+  | "short" => some (.plain, false, 16, true)
+  | "ushort" => some (.plain, false, 16, false)
+  | "int" => some (.plain, false, 32, true)
+  | "uint" => some (.plain, false, 32, false)
+  | "long" => some (.plain, false, 64, true)
+  | "ulong" => some (.plain, false, 64, false)
+  | "llong" => some (.plain, false, 64, true)
+  | "ullong" => some (.plain, false, 64, false)
+  | _ => none
+
+def fmtLimM (bits : Nat) (l : C15.IntLimits) : String :=
+  items [("sizeof", toString (bits / 8)), ("is_specialized", "1"), ("is_integer", "1"), ("is_exact", "1"), ("radix", "2"),
+         ("is_bounded", "1"), ("is_signed", b2s l.isSigned), ("digits", toString l.digits), ("digits10", toString l.digits10),
+         ("min", toString l.min), ("max", toString l.max), ("lowest", toString l.lowest), ("is_modulo", b2s l.isModulo),
+         ("traps", b2s l.traps)]
+
+def fmtLimS (bits : Nat) (isBool : Bool) (l : Spec.IntLimits) : String :=
+  items [("sizeof", toString (bits / 8)), ("is_specialized", "1"), ("is_integer", "1"), ("is_exact", "1"), ("radix", "2"),
+         ("is_bounded", "1"), ("is_signed", b2s l.isSigned), ("digits", toString l.digits), ("digits10", toString l.digits10),
+         ("min", toString l.min), ("max", toString l.max), ("lowest", toString l.lowest), ("is_modulo", b2s l.isModulo),
+         -- whether `bool` arithmetic "traps" is answered differently by the implementations (libstdc++: 1)
+         ("traps", if isBool then "*" else "1")]
+
+/-! ### ratio -/
+
+def fmtRat (n d : Int) : String := s!"{n}/{d}"
+def exB : Except Err Bool → String
+  | .ok b => b2s b
+  | .error _ => "ill-formed"
+
+def ratItem (name : String) (r : Except Err Rat) : List (String × String) :=
+  match r with
+  | .ok r => [(name, fmtRat r.num r.den), (name ++ "_canon", b2s r.canonical)]
+  | .error _ => [(name, "ill-formed"), (name ++ "_canon", "ill-formed")]
+
+def ratItemS (name : String) (r : Except Err Spec.Q) : List (String × String) :=
+  match r with
+  | .ok q => [(name, fmtRat q.1 q.2), (name ++ "_canon", "1")]
+  | .error _ => [(name, "ill-formed"), (name ++ "_canon", "ill-formed")]
+
+def modelRa (n1 d1 n2 d2 : Int) : String :=
+  match mkRatio n1 d1, mkRatio n2 d2 with
+  | .ok a, .ok b =>
+    items (ratItem "add" (ratioAdd a b) ++ ratItem "subtract" (ratioSub a b) ++ ratItem "multiply" (ratioMul a b)
+      ++ ratItem "divide" (ratioDiv a b)
+      ++ [("equal", b2s (ratioEqual a b)), ("not_equal", b2s (ratioNotEqual a b))]
+      ++ (match ratioLess a b, ratioLessEqual a b, ratioGreater a b, ratioGreaterEqual a b with
+          | .ok l, .ok le, .ok g, .ok ge =>
+            [("less", b2s l), ("less_equal", b2s le), ("greater", b2s g), ("greater_equal", b2s ge)]
+          | _, _, _, _ =>
+            -- the four ordering traits evaluate the same two products: ill-formed together
+            [("less", "ill-formed"), ("less_equal", "ill-formed"), ("greater", "ill-formed"), ("greater_equal", "ill-formed")]))
+  | _, _ => "bad-operand"
+
+def specRa (n1 d1 n2 d2 : Int) : String :=
+  if d1 = 0 || d2 = 0 || !Spec.argOk n1 || !Spec.argOk d1 || !Spec.argOk n2 || !Spec.argOk d2 then "bad-operand" else
+  let a := Spec.reduce n1 d1
+  let b := Spec.reduce n2 d2
+  items (ratItemS "add" (Spec.add a b) ++ ratItemS "subtract" (Spec.sub a b) ++ ratItemS "multiply" (Spec.mul a b)
+    ++ ratItemS "divide" (Spec.div a b)
+    ++ [("equal", b2s (Spec.equal a b)), ("not_equal", b2s (!Spec.equal a b)), ("less", b2s (Spec.less a b)),
+        ("less_equal", b2s (!Spec.less b a)), ("greater", b2s (Spec.less b a)), ("greater_equal", b2s (!Spec.less a b))])
+
+def step (_ : Unit) (l : Line) : Unit × String :=
+  let out : String :=
+    match l.op with
+    | "ut" =>
+      match (l.str? "t").bind CType.decode with
+      | some t => if t.wf then modelUnary t ++ "\t" ++ specUnary t else "illformed\tillformed"
+      | none => "bad-op\tbad-op"
+    | "bt" =>
+      match (l.str? "a").bind CType.decode, (l.str? "b").bind CType.decode with
+      | some a, some b =>
+        items [("is_same", b2s (M.isSame a b)), ("same_as", b2s (M.sameAs a b))] ++ "\t" ++
+        items [("is_same", b2s (Spec.isSame a b)), ("same_as", b2s (Spec.isSame a b))]
+      | _, _ => "bad-op\tbad-op"
+    | "spell" =>
+      match (l.str? "t").bind CType.decode with
+      | some t => if t.wf then t.cpp ++ "\t" ++ t.cpp else "illformed\tillformed"
+      | none => "bad-op\tbad-op"
+    | "lim" =>
+      match (l.str? "t").bind limitsOf with
+      | some (k, isBool, bits, sg) =>
+        fmtLimM bits (intLimits k bits sg) ++ "\t" ++ fmtLimS bits isBool (Spec.intLimits isBool bits sg)
+      | none => "\t"          -- floating-point type: no model, etl is compared with std only
+    | "rn" =>
+      match l.int? "n", l.int? "d" with
+      | some n, some d =>
+        (match mkRatio n d with
+         | .ok r =>
+           -- `ratio<n,d>::type` is `ratio<num,den>`, whose members are computed by the same expressions
+           (match mkRatio r.num r.den with
+            | .ok r2 => items [("ratio", fmtRat r.num r.den), ("type", fmtRat r2.num r2.den)]
+            | .error _ => items [("ratio", fmtRat r.num r.den), ("type", "ill-formed")])
+         | .error _ => "ill-formed") ++ "\t" ++
+        (if d = 0 || !Spec.argOk n || !Spec.argOk d then "ill-formed" else
+          let q := Spec.reduce n d
+          items [("ratio", fmtRat q.1 q.2), ("type", fmtRat q.1 q.2)])
+      | _, _ => "bad-op\tbad-op"
+    | "ra" =>
+      match l.int? "n1", l.int? "d1", l.int? "n2", l.int? "d2" with
+      | some n1, some d1, some n2, some d2 => modelRa n1 d1 n2 d2 ++ "\t" ++ specRa n1 d1 n2 d2
+      | _, _, _, _ => "bad-op\tbad-op"
+    | "misc" | "d" | "db" => "\t"        -- part (d): no model, etl is compared with std only
+    | _ => "bad-op\tbad-op"
+  ((), out)
+
+end Tetl.C15.Driver
+
+open Tetl.C15 Tetl.C15.Driver in
+def main (args : List String) : IO Unit := do
+  match args with
+  | ["zoo", k] =>
+    let out ← IO.getStdout
+    for t in zoo k.toNat! do
+      out.putStrLn (t.enc ++ "\t" ++ t.cpp)
+    out.flush
+  | _ => Tetl.Proto.runDriver () step
